@@ -624,7 +624,16 @@ impl Rasn {
             | ASN1Type::ObjectClassField(_)
             | ASN1Type::EmbeddedPdv
             | ASN1Type::External => (vec![], quote!(Any)),
-            ASN1Type::ChoiceSelectionType(_) => unreachable!(),
+            ASN1Type::ChoiceSelectionType(c) => {
+                return Err(GeneratorError {
+                    details: format!(
+                        "Failed to resolve selection type {} < {}",
+                        c.selected_option, c.choice_name
+                    ),
+                    top_level_declaration: None,
+                    kind: GeneratorErrorType::Asn1TypeMismatch,
+                })
+            }
         })
     }
 
